@@ -129,6 +129,13 @@ Lemma eval_S f e s :
   | EList l =>
       do vs, s1 <- eval_list f l s;
       ret (VList vs) s1
+  | EShift lft t a b =>
+      do va, s1 <- eval f a s;
+      do vb, s2 <- eval f b s1;
+      match t, va, vb with
+      | TInt bits sg, VInt x, VInt y => ret (VInt (shift_val lft bits sg x y)) s2
+      | _, _, _ => Fail Stuck
+      end
   | EConcat a b =>
       do va, s1 <- eval f a s;
       do vb, s2 <- eval f b s1;
